@@ -57,4 +57,33 @@ mutual
     | .elem e rest => e.nulFree && rest.nulFree
 end
 
+/-! ### line and column of an offset (what an error position must denote) -/
+
+/-- state of the line count after a prefix of the text: current line (1-based), offset at which
+    it starts, and whether the last byte was a CR (a LF that follows belongs to the same break) -/
+structure LineSt where
+  line : Nat
+  ls : Nat
+  cr : Bool
+  deriving DecidableEq, Repr
+
+/-- reads bytes (the first one at offset `i`): `\r\n`, `\r` and `\n` each end a line -/
+def lineScan : Bytes → Nat → LineSt → LineSt
+  | [], _, st => st
+  | b :: r, i, st =>
+    if b = 13 then lineScan r (i + 1) ⟨st.line + 1, i + 1, true⟩
+    else if b = 10 then
+      (if st.cr then lineScan r (i + 1) ⟨st.line, i + 1, false⟩
+       else lineScan r (i + 1) ⟨st.line + 1, i + 1, false⟩)
+    else lineScan r (i + 1) ⟨st.line, st.ls, false⟩
+
+/-- line and column (both 1-based) of the offset `off` of the text `t` -/
+def lineCol (t : Bytes) (off : Nat) : Nat × Nat :=
+  let st := lineScan (t.take off) 0 ⟨1, 0, false⟩
+  (st.line, off - st.ls + 1)
+
+/-- `(l, c)` is the line/column of a position of the text (an offset `0 … length`, the last one
+    being the terminator) -/
+def Inside (t : Bytes) (l c : Nat) : Prop := ∃ off, off ≤ t.length ∧ lineCol t off = (l, c)
+
 end Nstd.Xml
